@@ -10,13 +10,15 @@ FILES = ['src/memory/secure_pool.rs', 'src/memory/lockfree_pool.rs', 'src/memory
 
 def run(ctx):
     fx = ctx.facts("default")
-    fixtures.run(ctx, ['aba', 'atom', 'relink'])
+    fixtures.run(ctx, ['aba', 'atom', 'relink', 'locksplit'])
     fns = []
     npop = 0
     ncas = 0
     nat = 0
     natom = 0
     nrel = 0
+    nsplit = 0
+    nlocks = 0
     for f in FILES:
         for fid in fx.fn_ids(f):
             if "::tests::" in fid:
@@ -29,12 +31,16 @@ def run(ctx):
             npop += sync.aba(ctx, fn, fx=fx)
             nrel += sync.push_relink(ctx, fn, fx=fx)
             natom += sync.check_then_act(ctx, fn)
+            nsplit += sync.lock_split(ctx, fn)
+            nlocks += len(sync.lock_sites(fn))
     npush = sync.aba_push_tags(ctx, fns, fx=fx)
     sync.load_modify_store(ctx, fns)
     ctx.instance("R-ABA.cas_sites", ncas)
     ctx.instance("R-ABA.cas_pops", npop)
     ctx.instance("R-ABA.push.sites", npush)
     ctx.instance("R-ATOM.atomic_sites", nat)
+    ctx.instance("R-LOCKSPLIT.lock_sites", nlocks)
+    ctx.floor("R-LOCKSPLIT.lock_sites", 12)
     ctx.instance("R-ABA.relink.pushes", nrel)
     ctx.floor("R-ABA.relink.pushes", 4)
     ctx.floor("R-ABA.cas_sites", 8)
